@@ -425,3 +425,79 @@ func c04FlagAgreement(p *Prog, r *Report) {
 		}
 	}
 }
+
+// c04DefaultUnconditional: C04.R9 — every value recorded in the When's default field is nil, a value handed in, or a
+// freshly built matcher of a type whose Match answers true on every path: a conditional matcher as the default answers calls
+// that match no condition with that condition's results instead of the default's (or of the 'no suitable condition' panic).
+func c04DefaultUnconditional(p *Prog, r *Report, root []*ssa.Function, when *types.Named, defFld *types.Var) {
+	always := func(t types.Type) bool {
+		if pt, ok := t.(*types.Pointer); ok {
+			t = pt.Elem()
+		}
+		nt, ok := t.(*types.Named)
+		if !ok {
+			return false
+		}
+		mf := methodOf(p, nt, "Match")
+		if mf == nil || mf.Blocks == nil {
+			return false
+		}
+		for _, ret := range returnsOf(mf) {
+			c, ok := retResult(ret, 0).(*ssa.Const)
+			if !ok || c.Value == nil || c.Value.String() != "true" {
+				return false
+			}
+		}
+		return true
+	}
+	judge := func(v ssa.Value, fn *ssa.Function, at ssa.Instruction) {
+		okAll, why := true, ""
+		for _, a := range originsDeepIn(v, 2, func(f *ssa.Function) bool { return relPkg(f) == "" }) {
+			switch a.Kind {
+			case "const", "param":
+				continue
+			case "field":
+				if _, fv, ok := fieldRef(a.V); ok && fv == defFld {
+					continue
+				}
+			case "call":
+				if cl, ok := a.V.(*ssa.Call); ok {
+					if cal := staticCallee(cl.Common()); cal != nil && cal.Signature.Results().Len() == 1 && always(cal.Signature.Results().At(0).Type()) {
+						continue
+					}
+				}
+			}
+			if mi, ok := a.V.(*ssa.MakeInterface); ok && always(mi.X.Type()) {
+				continue
+			}
+			if al, ok := a.V.(*ssa.Alloc); ok && always(al.Type()) {
+				continue
+			}
+			okAll, why = false, a.String()
+		}
+		r.Check(okAll, "C04.R9", "default recorded in "+shortName(fn)+" is unconditional", p.Pos(posOf(at)), "nil, handed in, or a matcher whose Match is constantly true",
+			"a conditional matcher ("+why+") is recorded as the default: a call that matches no condition is answered with that condition's results instead of the default results or the 'no suitable condition' panic")
+	}
+	n := 0
+	for _, fs := range storesToField(root, func(fv *types.Var, _ ssa.Value) bool { return fv == defFld }) {
+		if _, isAl := fs.Addr.X.(*ssa.Alloc); isAl {
+			continue // literals are judged below
+		}
+		n++
+		judge(fs.Store.Val, fs.Fn, fs.Store)
+	}
+	for _, f := range root {
+		if f.Blocks == nil {
+			continue
+		}
+		for _, sb := range p.structBuilds(f, 0) {
+			if v, ok := sb.Fields[defFld]; ok && v != nil {
+				n++
+				judge(v, f, sb.At)
+			}
+		}
+	}
+	if n == 0 {
+		r.Und("C04.R9", "default recorded", "", "no store to the default field found")
+	}
+}
